@@ -568,6 +568,9 @@ func Edits(d *Dialect) []Edit {
 		)
 	case SQLite:
 		es = append(es,
+			// in SQLite RESTRICT is not NO ACTION (it fires immediately, even for deferred constraints).
+			Edit{"fk_delete_action_restrict", []string{"fk:fk_d2"}, func(s *schema.Schema) { F(T(s, "t"), "fk_d2").OnDelete = schema.Restrict }, []string{mt("ModifyForeignKey(fk_d2)[delete_action]")}},
+			Edit{"fk_update_action_restrict", []string{"fk:fk_d2"}, func(s *schema.Schema) { F(T(s, "t"), "fk_d2").OnUpdate = schema.Restrict }, []string{mt("ModifyForeignKey(fk_d2)[update_action]")}},
 			// a named foreign key moves to another column and a new key takes over its old columns.
 			Edit{"fk_moved_and_new_fk_over_its_old_columns", []string{"fk:fk_a", "fk:fk_b", "col:z0", "col:a"}, func(s *schema.Schema) {
 				t, p := T(s, "t"), T(s, "p")
